@@ -79,6 +79,47 @@ def run(chk):
                        ('the expression contains a difference / a sum of terms of unknown sign / a transcendental function of the input: its rounding error is not bounded relative to x'
                         if K_ is None else f'K = {float(K_):.3g}'), mod.where(need_func(mod, fa)), key=f'R17.7|{lab}|{comp}', method='first-order rounding count over the extracted expression')
                 if K_ is not None: chk.note_analysed('rounding bounds', f'{lab} {comp}: K = {float(K_):.3g}')
+    # the same with EVERY parameter given explicitly (a symbol per parameter, matched by name between the helpers of a pair and between twins): an optional parameter
+    # one helper honours and its inverse ignores -- or that the Python twin ignores and the compiled one honours -- breaks the round trip only when it is passed
+    ROLE = {'host_mass': M, 'target_mass': m}
+
+    def full_args(mod, name):
+        f_ = need_func(mod, name)
+        ps = [a_.arg for a_ in f_.args.args]
+        out = []
+        for pn in ps[1:]:
+            if pn not in ROLE:
+                ROLE[pn] = X.atom(f'given_{pn}', 'pos')
+            out.append((pn, ROLE[pn]))
+        return out
+    for (f, g) in PAIRS:
+        for mod, pre, lab in ((mp, '', 'py'), (mx, 'cf_', 'pyx cf_'), (mx, '', 'pyx def')):
+            fa, ga = pre + f, pre + g
+            pf, pg = full_args(mod, fa), full_args(mod, ga)
+            if not pf and not pg:
+                continue
+            if [n_ for n_, _ in pf] != [n_ for n_, _ in pg]:
+                chk.ob('R17.1', f'{lab}: {fa} and its inverse {ga} take the same further parameters', False, f'{[n_ for n_, _ in pf]} vs {[n_ for n_, _ in pg]}', mod.where(need_func(mod, fa)),
+                       key=f'R17.1|params|{lab}|{fa}', method='signatures')
+                continue
+            kw_ = dict(pf)
+            v1 = it.call(mod, need_func(mod, fa), [it.call(mod, need_func(mod, ga), [x], dict(kw_))], dict(kw_))
+            v2 = it.call(mod, need_func(mod, ga), [it.call(mod, need_func(mod, fa), [x], dict(kw_))], dict(kw_))
+            eq('R17.1', f'{lab}: {fa}({ga}(x, ...), ...) == x with every parameter ({", ".join(kw_)}) passed explicitly', v1, x, mod.where(need_func(mod, fa)))
+            eq('R17.1', f'{lab}: {ga}({fa}(x, ...), ...) == x with every parameter ({", ".join(kw_)}) passed explicitly', v2, x, mod.where(need_func(mod, ga)))
+    for pair in PAIRS:
+        for f in pair:
+            pp = dict(full_args(mp, f)); px = dict(full_args(mx, 'cf_' + f)); pd_ = dict(full_args(mx, f))
+            common = [n_ for n_ in pp if n_ in px]
+            if not common:
+                continue
+            vp = G_py(it.call(mp, need_func(mp, f), [x], {n_: pp[n_] for n_ in common}))
+            vx = it.call(mx, need_func(mx, 'cf_' + f), [x], {n_: px[n_] for n_ in common})
+            eq('R17.2', f'{f}: Python == compiled cf_{f} with the parameters they share ({", ".join(common)}) passed explicitly', vp, vx, mp.where(need_func(mp, f)), key=f'R17.2|explicit|{f}')
+            commond = [n_ for n_ in pd_ if n_ in px]
+            vd = it.call(mx, need_func(mx, f), [x], {n_: pd_[n_] for n_ in commond})
+            vx2 = it.call(mx, need_func(mx, 'cf_' + f), [x], {n_: px[n_] for n_ in commond})
+            eq('R17.2', f'{f}: compiled def wrapper == cf_{f} with the parameters they share passed explicitly', vd, vx2, mx.where(need_func(mx, f)))
     # twins
     for pair in PAIRS:
         for f in pair:
